@@ -31,6 +31,9 @@ pub struct Tweak {
     /// Some(None) disables the idle timeout
     pub idle_ms: Option<Option<u64>>,
     pub keep_alive_ms: Option<u64>,
+    /// build the configuration through the library's default builder paths (`with_identity` / `with_no_cert_validation` as they
+    /// are), i.e. with whatever transport parameters the library itself chooses; the other fields are then ignored
+    pub default_paths: bool,
 }
 
 pub fn transport(t: &Tweak) -> quinn::TransportConfig {
@@ -110,6 +113,9 @@ impl World {
     }
 
     pub fn server_config(&self, t: &Tweak) -> ServerConfig {
+        if t.default_paths {
+            return ServerConfig::builder().with_bind_default(0).with_identity(identity()).build();
+        }
         ServerConfig::builder()
             .with_bind_default(0)
             .with_custom_transport(identity(), transport(t))
@@ -118,6 +124,9 @@ impl World {
 
     pub fn client_config(&self, t: &Tweak) -> ClientConfig {
         let mut c = ClientConfig::builder().with_bind_default().with_no_cert_validation().build();
+        if t.default_paths {
+            return c;
+        }
         c.quic_config_mut().transport_config(Arc::new(transport(t)));
         c
     }
